@@ -37,9 +37,6 @@ structure D where
 
 def D.st (d : D) : St := { be := fun k => bget d.be k, cache := { files := d.cache, links := d.links }, dirs := d.dirs }
 
-/-- the cache directory after a model step -/
-def D.withCache (d : D) (c : CD) : D := { d with cache := c.files, links := c.links }
-
 /-- something that is not a directory sits at `r` (a regular file or a dangling symlink): nothing can be created below -/
 def D.nonDirAt (d : D) (r : Path) : Bool := (fget d.cache r).isSome || d.links.contains r
 
@@ -49,6 +46,12 @@ def pathOf (p : String) : Path := (p.splitOn "/").map String.toList
 def parents (p : Path) : List Path := (List.range p.length).filterMap (fun n => if n = 0 then none else some (p.take n))
 
 def addDirs (dirs : List Path) (ps : List Path) : List Path := ps.foldl (fun acc q => if acc.contains q then acc else acc ++ [q]) dirs
+
+/-- the cache directory after a model step -/
+def D.withCache (d : D) (c : CD) : D :=
+  -- `create_dir_all(<type>/<xx>)`: the parents of every new file are directories now (and stay)
+  let fresh := c.files.filter (fun e => (fget d.cache e.1).isNone)
+  { d with cache := c.files, links := c.links, dirs := addDirs d.dirs (fresh.flatMap (fun e => parents e.1)) }
 
 /-- regular files `path:size`, and the directories at depth ≥ 3 (those only plants create) as `path/` -/
 def layoutC (d : D) : String :=
